@@ -4,7 +4,8 @@ from .ty import *
 
 
 class SpecFn:
-    def __init__(self, name, arg_tys, ret_ty, define=None, py=None, doc="", opaque=False):
+    def __init__(self, name, arg_tys, ret_ty, define=None, py=None, doc="", opaque=False, macro=False):
+        self.macro = macro     # non-recursive definition: also given to the solver as a quantified equation
         self.opaque = opaque   # definition is unfolded only in VCs of contracts that `reveal` it
         self.name, self.arg_tys, self.ret_ty = name, list(arg_tys), ret_ty
         self.decl = z3.Function(name, *[sort(t) for t in arg_tys], sort(ret_ty))
@@ -136,8 +137,8 @@ INLINE = set()  # keys of repo functions that are executed in place at call site
 CONSTS = {}     # extra named constants visible in contract expressions
 
 
-def specfn(name, arg_tys, ret_ty, define=None, py=None, doc="", opaque=False):
-    f = SpecFn(name, arg_tys, ret_ty, define, py, doc, opaque)
+def specfn(name, arg_tys, ret_ty, define=None, py=None, doc="", opaque=False, macro=False):
+    f = SpecFn(name, arg_tys, ret_ty, define, py, doc, opaque, macro)
     SPEC[name] = f
     return f
 
